@@ -359,7 +359,7 @@ class Unit:
                 self._baseline = {}
         return self._baseline
 
-    def generate(self, repo, probe=False, drop=(), inline=(), shift=None):
+    def generate(self, repo, probe=False, drop=(), inline=(), shift=None, skip_asserts=None):
         """returns (text, info) ; info lists functions under contract, rules fired, splice ids.
         drop: splice ids (proof hints) to leave out.
         inline: names of helper functions that are not part of the unit (an edit extracted them out of an item under contract):
@@ -372,6 +372,8 @@ class Unit:
         # hint relocation (driver, only on edited sources): {splice id: k} places a before/after hint k statements later (k > 0) or
         # earlier (k < 0) than its anchor says; a hint is proof text that the verifier checks wherever it stands
         self._shift = dict(shift or {})
+        # {generated item id@@path: ordinals of debug assertions an edit ADDED that are erased instead of checked (driver decides)}
+        self._skip_asserts = dict(skip_asserts or {})
         base = self._load_baseline()
         for kind, part in self.parts:
             if kind == "raw":
@@ -421,7 +423,8 @@ class Unit:
                 if fn is not None and getattr(fn, "vx_pre", False):
                     text = fn(text, log)
             text = rw.r3_logs(text, log)
-            text = rw.r2_asserts(text, log)
+            _sid = "%s/%s" % (self.name, (spec.container + "::" if spec.container else "") + spec.name + (("#" + spec.region.get("name", "region")) if spec.kind == "region" else ""))
+            text = rw.r2_asserts(text, log, skip_ordinals=set((getattr(self, "_skip_asserts", None) or {}).get(_sid + "@@" + spec.path, ())))
             text = rw.r6_config(text, set(self.config), log)
             for r in spec.rules:
                 fn = all_rules(self.name, self.rules_from).get(r)
@@ -438,7 +441,7 @@ class Unit:
                 # a substitution whose source text is gone (the statement was edited) is skipped and recorded: whatever it would
                 # have replaced is then submitted to the verifier as written, which either copes with it or reports that it cannot
                 before_ = text
-                text = rw.subst(text, a, b, log, must=False)
+                text = rw.subst(text, a, b, log, must=False, unify=bool(must))
                 if must and text == before_ and not rw.find_seq(sig(lex(text)), [t.text for t in sig(lex(b))]):
                     info.setdefault("substs_not_applied", []).append("%s: `%s`" % (self.item_key(spec), a))
             if spec.ret and spec.kind in ("fn",):
